@@ -3,7 +3,7 @@ state, signalled, and observed (latency, re-bind, in-flight responses); the hook
 the signalling thread is replayed through the Coq transition system (every observed history must be a history of the
 model, for which termination/no-deadlock/port-free are proved)."""
 RULE = ('0..16 connections each in {J just accepted, I idle keep-alive, H half-sent request, S short handler running, L long handler '
-        'running, W large response being written} x pool sizes 1..8 incl. fully occupied pools x signal {before the first '
+        'running, W large response being written, O WebSocket open (upgrade accepted, handler holding the connection)} x pool sizes 1..8 incl. fully occupied pools x signal {before the first '
         'connection, after the state is established, concurrently with 6 new connects} x bind {127.0.0.1, 0.0.0.0}; '
         'when there are more connections than workers only the shutdown itself (return, port, trace) is judged, since the '
         'surplus connections merely queue; non-trivial = at least one connection or a concurrent signal')
@@ -73,7 +73,7 @@ def run(ctx):
     for i in range(n):
         threads = rng.choice([1, 1, 2, 4, 8])
         k = rng.choice([0, 1, 2, 3, 5, 8, 16])
-        states = ''.join(rng.choice('JIHSLW' if threads > 1 else 'JIHSL') for _ in range(k)) or '-'
+        states = ''.join(rng.choice('JIHSLWO' if threads > 1 else 'JIHSLO') for _ in range(k)) or '-'
         if i % 7 == 0 and threads <= 2:
             states = ('L' * (threads + rng.randint(0, 2))) + 'S'          # saturated pool
         when = rng.choice(['after', 'after', 'before', 'concurrent'])
